@@ -164,6 +164,19 @@ impl Rt {
     pub fn checksum(&self) -> Checksum {
         Checksum::generate(format!("wrapper-{}", self.seed).as_bytes())
     }
+    /// Values supplied first and then replaced by a second call of the same step.
+    pub fn decoy_checksum(&self) -> Checksum {
+        Checksum::generate(format!("decoy-{}", self.seed).as_bytes())
+    }
+    pub fn decoy_storage(&self) -> TagStorage {
+        let mut s = MockStorage::new();
+        s.set(b"seed-marker", b"decoy");
+        s.set(b"decoy-only", b"x");
+        TagStorage(s)
+    }
+    pub fn decoy_block(&self) -> BlockInfo {
+        BlockInfo { height: 424242, time: Timestamp::from_seconds(42), chain_id: "decoy".into() }
+    }
     /// The init function handed to `build`: counts its invocations and leaves a marker in the storage it is given.
     #[allow(clippy::type_complexity)]
     pub fn init<B, C, W, S, D, I, G, T, A>(&self) -> (Rc<Cell<u32>>, impl FnOnce(&mut Router<B, C, W, S, D, I, G, T>, &A, &mut dyn Storage)) {
@@ -378,7 +391,10 @@ fn main() {
                 }
             }
             // every order of the same set — and both constructors, AppBuilder::new() and new_custom() — behave identically
-            let mut set: Vec<&'static str> = steps.iter().copied().filter(|s| *s != "new_custom" && !s.starts_with("ctor:")).collect();
+            let mut set: Vec<&'static str> = steps.iter().copied().filter(|s| *s != "new_custom" && !s.starts_with("ctor:") && !s.starts_with("decoy:")).collect();
+            if steps.iter().any(|s| s.starts_with("decoy:")) {
+                rep.bump("c20/builder_chains/with_a_step_given_twice");
+            }
             set.sort();
             if let Some((other, t0)) = by_set.get(&set) {
                 rep.bump("c20/permutation_pairs_compared");
@@ -402,7 +418,12 @@ fn main() {
             if steps.len() >= 3 {
                 rep.fingerprints.insert(fp_str(&format!("w{:?}", steps)));
             }
-            let has = |n: &str| steps.iter().find(|s| **s == n || **s == format!("{}_empty", n)).copied();
+            // the value supplied last for a slot is the one that was supplied
+            let has = |n: &str| steps.iter().rev().find(|s| **s == n || **s == format!("{}_empty", n)).copied();
+            let last_checksum = steps.iter().rev().find(|s| s.starts_with("checksum")).copied();
+            if steps.iter().filter(|s| s.starts_with("checksum")).count() > 1 || ["sudo", "reply", "migrate"].iter().any(|n| steps.iter().filter(|s| s.starts_with(n)).count() > 1) {
+                rep.bump("c20/wrapper_chains/with_a_step_given_twice");
+            }
             let want = vec![
                 "execute: execute".to_string(),
                 "instantiate: instantiate".to_string(),
@@ -410,7 +431,7 @@ fn main() {
                 format!("sudo: {}", has("sudo").unwrap_or("absent")),
                 format!("reply: {}", has("reply").unwrap_or("absent")),
                 format!("migrate: {}", has("migrate").unwrap_or("absent")),
-                format!("checksum: {}", if steps.contains(&"checksum") { rt.checksum().to_hex() } else { "none".into() }),
+                format!("checksum: {}", match last_checksum { Some("checksum") => rt.checksum().to_hex(), Some(_) => rt.decoy_checksum().to_hex(), None => "none".into() }),
             ];
             for (g, w) in t.iter().zip(want.iter()) {
                 rep.bump("c20/wrapper_slots_checked");
@@ -436,7 +457,7 @@ fn main() {
     rep.extra.insert("exhaustive_scope".into(), json!("all 110 ordered pairs of builder steps; all ordered ContractWrapper::new with_* selections (with both typed and _empty variants); the rest is sampled"));
     rep.assume("builder chains start from AppBuilder::new() (Empty custom message/query types); new_custom differs only in type parameters");
     rep.assume("the stub Wasm and tagged modules answer with their tag; defaults are identified by the empty chain's probe and the documented default values");
-    for k in ["c20/builder_chains/len0", "c20/builder_chains/len1", "c20/builder_chains/len2", "c20/builder_chains/len3", "c20/builder_chains/len11", "c20/permutation_pairs_compared", "c20/wrapper_chains/len4", "c20/wrapper_slots_checked"] {
+    for k in ["c20/builder_chains/len0", "c20/builder_chains/len1", "c20/builder_chains/len2", "c20/builder_chains/len3", "c20/builder_chains/len11", "c20/permutation_pairs_compared", "c20/wrapper_chains/len4", "c20/wrapper_slots_checked", "c20/wrapper_chains/with_a_step_given_twice", "c20/builder_chains/with_a_step_given_twice"] {
         rep.require(k);
     }
     let exit = conclude(&ctx, rep, replay.as_deref());
